@@ -64,9 +64,9 @@ func Same(a, b *Term) bool { return a == b || a.Key() == b.Key() }
 
 // ---- constructors -------------------------------------------------------
 
-func IntC(v int64) *Term     { return &Term{Op: "const", Sort: SInt, Val: big.NewInt(v)} }
-func BigC(v *big.Int) *Term  { return &Term{Op: "const", Sort: SInt, Val: new(big.Int).Set(v)} }
-func Pow2(n int) *Term       { return BigC(new(big.Int).Lsh(big.NewInt(1), uint(n))) }
+func IntC(v int64) *Term         { return &Term{Op: "const", Sort: SInt, Val: big.NewInt(v)} }
+func BigC(v *big.Int) *Term      { return &Term{Op: "const", Sort: SInt, Val: new(big.Int).Set(v)} }
+func Pow2(n int) *Term           { return BigC(new(big.Int).Lsh(big.NewInt(1), uint(n))) }
 func Var(n string, s Sort) *Term { return &Term{Op: "var", Sort: s, Name: n} }
 
 var True = &Term{Op: "true", Sort: SBool}
